@@ -335,6 +335,9 @@ def gen_job(seed, profile="general"):
     if r.random() < 0.08:
         # another model of the same kind was post-processed earlier in the process
         doc["prelude"] = [r.choice(["extrapolate", "extrapolate", "project"])]
+    if kpick(seed, "manual-bc-ramp", 4) == 0 and nsteps == 1:
+        # steps that ramp load items only: the caller moves the boundaries itself between the substeps
+        doc["manual_bc_ramp"] = True
     if kpick(seed, "shadow-model", 4) == 0:
         # another model alive in the process that shares the material object of the first body and is
         # evaluated between the substeps of this job
